@@ -3,6 +3,7 @@
 # preserving commit to a scratch copy of /repo and run EVERY check's quick tier
 # against it. Any exit != 0 is a false alarm to investigate (or a commit that is
 # not as harmless as claimed).
+root=$(cd "$(dirname "$0")/.." && pwd)   # works from a worktree of /verif too
 patch=$(readlink -f "$1"); name=${2:-$(basename $(dirname "$patch"))}
 scratch=$(mktemp -d /tmp/flamego-benign-XXXXXX)
 trap 'rm -rf "$scratch"' EXIT
@@ -10,10 +11,10 @@ rsync -a --exclude .git /repo/ "$scratch/"
 (cd "$scratch" && patch -p1 -s < "$patch") || { echo "$name PATCH-FAILED"; exit 3; }
 export GOFLAGS=-mod=mod GOPROXY=off GOSUMDB=off GOTOOLCHAIN=local
 (cd "$scratch" && go build ./...) || { echo "$name BUILD-FAILED"; exit 3; }
-export VERIF_WORK=${VERIF_WORK:-/verif/.work3}
+export VERIF_WORK=${VERIF_WORK:-$root/.work3}
 bad=""
 for id in C01 C02 C03 C04 C05 C06 C07 C08 C09 C10 C11 C12 C13 C14 C15 C16 C17 C18; do
-  out=$(VERIF_REPO="$scratch" /verif/check $id quick 2>&1); code=$?
+  out=$(VERIF_REPO="$scratch" "$root/check" $id quick 2>&1); code=$?
   if [ $code -ne 0 ]; then
     bad="$bad $id(exit $code)"
     echo "$name ALARM $id exit=$code"
